@@ -4,6 +4,7 @@ go 1.23
 
 require (
 	github.com/BurntSushi/toml v1.2.1
+	github.com/antlr4-go/antlr/v4 v4.13.0
 	github.com/cespare/xxhash/v2 v2.2.0
 	github.com/google/flatbuffers v23.3.3+incompatible
 	github.com/lindb/common v0.0.6
@@ -14,7 +15,6 @@ require (
 )
 
 require (
-	github.com/antlr4-go/antlr/v4 v4.13.0 // indirect
 	github.com/caarlos0/env/v7 v7.1.0 // indirect
 	github.com/coreos/go-semver v0.3.0 // indirect
 	github.com/coreos/go-systemd/v22 v22.5.0 // indirect
